@@ -203,8 +203,9 @@ type outcome struct {
 	fails     []failure // controller-level failures: step-sequence, blocked, panic, wait-not-blocking, bad-schedule
 	abandoned bool      // a goroutine neither parked nor finished: goroutines of this case may be leaked
 	diverged  bool
-	dr        *outcome // after a divergence: what was observed once the goroutines had run freely to completion
-	agrees    bool     // the Go copy of the model predicts exactly these observations
+	dr        *outcome // unfinished forced run: what was observed once the goroutines had run freely to completion
+	drWhy     string
+	agrees    bool // the Go copy of the model predicts exactly these observations
 	waiter    bool
 	overwrite bool
 }
@@ -373,6 +374,7 @@ func runCase(m *module, prog program, sched []int, probe int, vk *vkind) *outcom
 		ctxv.Store((*caseCtx)(nil))
 		return out
 	}
+	probePoint := 0 // != 0: the probed goroutine was released at this yield point and is inside the real Wait
 	if probe >= 0 && clean && probe < n && (parked[probe] == 2 || parked[probe] == 7) {
 		if _, en, _ := step(prog, ms, probe); !en {
 			c.current = probe
@@ -394,6 +396,7 @@ func runCase(m *module, prog program, sched []int, probe int, vk *vkind) *outcom
 					parked[probe] = r.point
 				}
 			} else {
+				probePoint = parked[probe]
 				parked[probe] = -2 // inside the real Wait
 			}
 		}
@@ -442,8 +445,35 @@ func runCase(m *module, prog program, sched []int, probe int, vk *vkind) *outcom
 			}
 		}
 		t.Stop()
-		if out.diverged && !out.abandoned {
-			// the implementation left the model's step sequence: also judge what it ends up with when left alone
+		if probePoint != 0 && !out.abandoned {
+			// The probed goroutine went past its yield point while the computation it waits for was still in flight, blocked
+			// in Wait as it must, and has now returned.  The model (LazyMap.v step, PWait): it returns the placeholder's value,
+			// which is what the owner's operation computes - whatever else happened while everybody ran freely.
+			i := len(known[probe])
+			if ov, owner, ok := ownerOf(prog, ms, probe); ok && i < len(prog[probe]) {
+				want := obsv{oVal, ov}
+				if prog[probe][i].Kind == kStore {
+					want = obsv{oUnit, 0}
+				}
+				switch {
+				case i >= len(c.rets[probe]):
+					// it panicked: reported above
+				case c.rets[probe][i] != want:
+					fail("waiter-wrong-value", fmt.Sprintf("goroutine %d call %d (%s) was released at yield point %d while the computation of key %d was in flight "+
+						"(owner: goroutine %d at yield point %d), blocked in Wait until the computation was over and then returned %s; the computation's result "+
+						"and the only value this call can return is %s (%s)", probe, i, prog[probe][i], probePoint, prog[probe][i].K, owner, parked[owner],
+						c.rets[probe][i], want, describe(vk.enc(ov), ov)))
+				}
+			}
+		}
+		if !out.abandoned {
+			// Everybody ran freely to completion (after a forced prefix, a wait probe, or because the implementation left the
+			// model's step sequence): judge what the calls returned and what the map ends up with by the predicates that hold
+			// under every schedule (no step intervals here, so no linearizability check).
+			out.drWhy = "left to run freely after the forced prefix: "
+			if out.diverged {
+				out.drWhy = "left to run freely after leaving the model's step sequence: "
+			}
 			dr := &outcome{finished: true, rets: make([][]obsv, n)}
 			for t := 0; t < n; t++ {
 				dr.rets[t] = append([]obsv{}, c.rets[t]...)
